@@ -8,6 +8,8 @@ import (
 	"context"
 	"errors"
 	"fmt"
+	"math"
+	"math/big"
 	"net/http"
 	"net/http/httptest"
 	"sort"
@@ -46,6 +48,7 @@ type BOp struct {
 	Dt      int64  `json:"dt"`   // virtual ns slept before the op
 	V       uint64 `json:"v,omitempty"`
 	PrioOff int64  `json:"prio_off,omitempty"` // priority = now + PrioOff
+	Abs     string `json:"abs,omitempty"`      // priority = absInstants[Abs] instead
 }
 type BucketCase struct {
 	Cap int   `json:"cap"`
@@ -61,6 +64,8 @@ type SOp struct {
 	UpdOff   int64 `json:"upd_off"`
 	Timeout  bool  `json:"timeout,omitempty"`
 	ZeroEnd  bool  `json:"zero_end,omitempty"`
+	EndAbs   string `json:"end_abs,omitempty"`   // EndsAt = absInstants[EndAbs] instead
+	StartAbs string `json:"start_abs,omitempty"` // StartsAt = absInstants[StartAbs] instead
 }
 type StoreCase struct {
 	N          int   `json:"n"`
@@ -124,6 +129,42 @@ const (
 	hr  = int64(time.Hour)
 )
 
+// zT renders an instant as its exact number of nanoseconds since the Unix epoch, as a Coq Z term. No int64 wrap:
+// instants beyond 2262-04-11T23:47:16.854775807Z (and before 1677) do not fit UnixNano and are rendered through
+// zi2; Go's zero time is the (negative) instant of 0001-01-01T00:00:00Z, Model/StoreLimit.v zero_time.
+func zT(t time.Time) string {
+	v := new(big.Int).Mul(big.NewInt(t.Unix()), big.NewInt(1000000000))
+	v.Add(v, big.NewInt(int64(t.Nanosecond())))
+	if v.IsInt64() {
+		return vh.Z(v.Int64())
+	}
+	a := new(big.Int).Abs(v)
+	hi := new(big.Int).Rsh(a, 32)
+	lo := new(big.Int).And(a, big.NewInt(0xffffffff))
+	term := fmt.Sprintf("(zi2 %s %s)", hi.String(), lo.String())
+	if v.Sign() < 0 {
+		return "(- " + term + ")"
+	}
+	return term
+}
+
+// absolute instants around the places where an int64 nanosecond count wraps or changes sign
+var absInstants = map[string]time.Time{
+	"wrap-1": time.Unix(0, math.MaxInt64-1),
+	"wrap":   time.Unix(0, math.MaxInt64), // 2262-04-11T23:47:16.854775807Z
+	"wrap+1": time.Unix(0, math.MaxInt64).Add(1),
+	"y2300":  time.Date(2300, 1, 1, 0, 0, 0, 0, time.UTC),
+	"y9999":  time.Date(9999, 12, 31, 23, 59, 59, 0, time.UTC),
+	"y1969":  time.Date(1969, 12, 31, 23, 59, 59, 999999999, time.UTC),
+	"y1900":  time.Date(1900, 1, 1, 0, 0, 0, 0, time.UTC),
+	"y1677":  time.Unix(0, math.MinInt64).Add(-1), // one ns below the smallest int64 nanosecond count
+	"zero":   {},
+}
+var (
+	farPool  = []string{"wrap-1", "wrap", "wrap+1", "y2300", "y9999", "y9999", "y2300"}
+	pastPool = []string{"y1969", "y1900", "y1677", "zero"}
+)
+
 func joinLines(xs []string) string { return strings.Join(xs, ";\n  ") }
 
 // ---------------------------------------------------------------- engine 1: limit.Bucket
@@ -132,6 +173,7 @@ func genBucket(r *vh.Rand, maxOps int) *BucketCase {
 	// NewBucket panics on a negative capacity (make); store.Set only builds buckets for a limit > 0
 	c := &BucketCase{Cap: vh.Pick(r, []int{1, 2, 3, 3, 4, 4, 5, 7, 0})}
 	n := r.Range(3, maxOps)
+	far := r.Chance(1, 5) // a case in which far-future priorities dominate
 	nv := c.Cap + r.Range(1, 3)
 	if nv < 2 {
 		nv = 2
@@ -147,6 +189,11 @@ func genBucket(r *vh.Rand, maxOps int) *BucketCase {
 				op.V = 1<<63 + uint64(r.Intn(3))
 			}
 			op.PrioOff = vh.Pick(r, []int64{0, 1, -1, min, 2 * min, 5 * min, 7 * min, 10 * min, 20 * min, 30 * min, hr, -min, -10 * min, 3 * min, 4 * min})
+			if far && r.Chance(1, 2) {
+				op.Abs = vh.Pick(r, farPool)
+			} else if r.Chance(1, 12) {
+				op.Abs = vh.Pick(r, append(append([]string{}, farPool...), pastPool...))
+			}
 		}
 		c.Ops = append(c.Ops, op)
 	}
@@ -165,7 +212,7 @@ func coqItems(items []limit.VerifItem[uint64]) string {
 	})
 	parts := make([]string, len(xs))
 	for i, it := range xs {
-		parts[i] = fmt.Sprintf("(%s, %s)", vh.U64(it.Value), vh.Z(it.Priority.UnixNano()))
+		parts[i] = fmt.Sprintf("(%s, %s)", vh.U64(it.Value), zT(it.Priority))
 	}
 	return vh.List(parts)
 }
@@ -183,9 +230,13 @@ func runBucket(t *testing.T, c *Case) *result {
 			switch op.Kind {
 			case "upsert":
 				prio := now.Add(time.Duration(op.PrioOff))
+				if op.Abs != "" {
+					prio = absInstants[op.Abs]
+					res.tags["upsert-abs-"+op.Abs]++
+				}
 				ok := b.Upsert(op.V, prio)
 				after := b.VerifItems()
-				hist = append(hist, fmt.Sprintf("(%s, BUpsert %s %s, (%s, %s))", vh.Z(now.UnixNano()), vh.U64(op.V), vh.Z(prio.UnixNano()), vh.Bool(ok), coqItems(after)))
+				hist = append(hist, fmt.Sprintf("(%s, BUpsert %s %s, (%s, %s))", zT(now), vh.U64(op.V), zT(prio), vh.Bool(ok), coqItems(after)))
 				// ---- direct oracle: Upsert against the finite-map spec ----
 				bm := map[uint64]time.Time{}
 				for _, it := range before {
@@ -262,7 +313,7 @@ func runBucket(t *testing.T, c *Case) *result {
 				}
 			case "stale":
 				st := b.IsStale()
-				hist = append(hist, fmt.Sprintf("(%s, BStale, (%s, %s))", vh.Z(now.UnixNano()), vh.Bool(st), coqItems(before)))
+				hist = append(hist, fmt.Sprintf("(%s, BStale, (%s, %s))", zT(now), vh.Bool(st), coqItems(before)))
 				all := true
 				for _, it := range before {
 					if !it.Priority.Before(now) {
@@ -377,7 +428,7 @@ func zt(t time.Time) int64 {
 }
 
 func coqAlert(a *types.Alert) string {
-	return vh.App("mkAlert", vh.U64(uint64(a.Fingerprint())), vh.Str(a.Name()), vh.Z(zt(a.StartsAt)), vh.Z(zt(a.EndsAt)), vh.Z(zt(a.UpdatedAt)), vh.Bool(a.Timeout))
+	return vh.App("mkAlert", vh.U64(uint64(a.Fingerprint())), vh.Str(a.Name()), zT(a.StartsAt), zT(a.EndsAt), zT(a.UpdatedAt), vh.Bool(a.Timeout))
 }
 
 func counterValue(reg *prometheus.Registry, name string) float64 {
@@ -426,7 +477,7 @@ func runStore(t *testing.T, c *Case) *result {
 		observe := func(now time.Time, opTerm string, accepted bool) []*types.Alert {
 			l := listAlerts(alerts)
 			lim := counterValue(reg, "alertmanager_alerts_limited_total")
-			hist = append(hist, fmt.Sprintf("(%s, %s, (%s, %s, %s))", vh.Z(now.UnixNano()), opTerm, vh.Bool(accepted), vh.Nat(int(lim)), vh.ListOf(l, coqAlert)))
+			hist = append(hist, fmt.Sprintf("(%s, %s, (%s, %s, %s))", zT(now), opTerm, vh.Bool(accepted), vh.Nat(int(lim)), vh.ListOf(l, coqAlert)))
 			// ---- direct oracle: distinct unexpired alerts per name <= N ----
 			if sc.N > 0 {
 				cnt := map[string]int{}
